@@ -93,7 +93,10 @@ func (e *Exec) external(st *State, instr ssa.Instruction, name string, fn *ssa.F
 	case "(*atomic.Uint32).Load", "(*atomic.Bool).Load", "(*atomic.Int64).Load", "(*atomic.Pointer).Load":
 		loc := e.atomicOf(args[0], fn)
 		e.atomicInterference(st, args[0], loc)
-		return ret(e.loadFrom(st, loc, false))
+		lv := e.loadFrom(st, loc, false)
+		lv.Typ = resType
+		e.assumeTypeWF(st, lv, resType)
+		return ret(lv)
 	case "(*atomic.Uint32).Store", "(*atomic.Bool).Store", "(*atomic.Int64).Store", "(*atomic.Pointer).Store":
 		loc := e.atomicOf(args[0], fn)
 		e.storeTo(st, loc, Val{T: args[1].T, Typ: loc.Typ})
